@@ -104,7 +104,7 @@ STD_OPTIONS = {
     "uninformed_acceptance_threshold": [0.5],
     "analytic_priors": [True],
     "poolsize": [20, 500],
-    "drawsize": [30, 2000],
+    "drawsize": [1, 30, 2000],
     "update_poolsize": [False],
     "max_poolsize_scale": [2],
     "check_acceptance": [True],
@@ -218,7 +218,7 @@ GROUPS = {
         "latent_prior", "constant_volume_mode", "volume_fraction", "fuzz",
         "expansion_fraction", "fixed_radius", "min_radius", "max_radius",
         "compute_radius_with_all", "check_acceptance", "truncate_log_q",
-        "accumulate_weights"]),
+        "accumulate_weights", "drawsize", "poolsize"]),
     "training": (False, [
         "reset_weights", "reset_permutations", "reset_flow",
         "retrain_acceptance", "reset_acceptance", "acceptance_threshold",
@@ -312,11 +312,26 @@ RESUME_OPTS = {
 }
 
 
-def with_resume(case):
+# options that are read when a pool is populated: their values are also run
+# as a history that is resumed and repopulates *without* a new training
+# (train_on_empty=False, rare scheduled trainings)
+NO_RETRAIN_OPTS = ["truncate_log_q", "compute_radius_with_all",
+                   "latent_prior", "accumulate_weights", "fixed_radius",
+                   "flow_proposal_class", "reparameterisations",
+                   "constant_volume_mode", "check_acceptance"]
+
+
+def with_resume(case, no_retrain=False):
     import copy
 
     c = copy.deepcopy(case)
     kw = c["kwargs"]
+    if no_retrain:
+        kw["train_on_empty"] = False
+        kw["training_frequency"] = 150
+        kw["poolsize"] = 60
+        kw["update_poolsize"] = False
+        c["labels"] = list(c["labels"]) + ["history:no-retrain-after-resume"]
     kw["checkpointing"] = True
     kw["checkpoint_on_iteration"] = True
     if c["ins"]:
@@ -411,7 +426,11 @@ def build_cases(ctx):
             cases.append(to_case(spec, s))
             if s == seeds[0] and not spec.get("gw") and \
                     spec["opts"][0][0] in RESUME_OPTS[spec["ins"]]:
-                cases.append(with_resume(cases[-1]))
+                base_case = cases[-1]
+                cases.append(with_resume(base_case))
+                if not spec["ins"] and \
+                        spec["opts"][0][0] in NO_RETRAIN_OPTS:
+                    cases.append(with_resume(base_case, no_retrain=True))
     pairs = group_pairs()
     if ctx.quick:
         k = ctx.seed % 3
